@@ -220,4 +220,11 @@ theorem hostOf_bracketed (h port : Bytes) (h2 : 91 ∉ h) (h3 : 93 ∉ h)
   rw [if_neg (by omega)]
 
 
+/-! ## socket address byte forms -/
+theorem beNat4 (a b c d : UInt8) : beNat [a, b, c, d] = ((a.toNat * 256 + b.toNat) * 256 + c.toNat) * 256 + d.toNat := by
+  simp [beNat]
+theorem beNat_mapped (a b c d : UInt8) :
+    beNat [0, 0, 0, 0, 0, 0, 0, 0, 0, 0, 0xff, 0xff, a, b, c, d] = 0xffff * 2 ^ 32 + beNat [a, b, c, d] := by
+  simp [beNat]; omega
+
 end Gate.C33
